@@ -10,7 +10,7 @@ RULE = ("random programs (1-6 ops) of in-bounds set_pixel / set_pixels / draw_it
 TRUSTED = ["Oracle/Controller.v (reference MIPI-DCS controller) and Oracle/DrawSpec.v (per-op expected writes)"]
 ASSUMPTIONS = ["drawing arguments of set_pixel/set_pixels in bounds, colour count <= rectangle area (documented precondition)"]
 PER_SHARD = 40
-PROPS_FILES = ["C01", "C01T"]      # C01T: the pin-level (all transports) theorems
+PROPS_FILES = ["C01", "C01T", "C01E"]      # C01T: pin level (all transports); C01E: from power-on, every generated model
 CASE_TYPE = "(c1case * c1out)"
 IMPORTS = "Require Import Corr.L2 Corr.C01."
 SMALL = [100, 101, 102, 103, 104, 105, 203, 204]
